@@ -154,6 +154,18 @@ CHECKS["C07"] = dict(
    note="Trusted: Coq kernel; Model/Annot.v hand-written; default Annotation.relocate. Three defects repaired (annotate() forgot inherited pinned "
         "annotations; If shortcuts; extract_simplifier).")
 
+CHECKS["C06"] = dict(
+   text="Machine-checked proof (Coq) that the pieces of the hash-consing key cannot confuse two expressions: the integer encoding of integer "
+        "arguments (to_bytes((bit_length+15)//8, little, signed)) round-trips for EVERY integer, hence is injective (C06_int_roundtrip, "
+        "C06_int_injective); the framing of a node whose arguments are expressions (8-byte hashes) with 8-byte annotation hashes and an optional "
+        "8-byte length can be decoded back for every argument and annotation list, hence is injective (C06_frame_roundtrip, C06_frame_injective). "
+        "Tie: the extracted encoders run next to Base._arg_serialize/_ast_serialize. The 64-bit blake2b digest, the Python hash of annotation "
+        "objects and the weak table are oracles; that every construction path returns exactly the requested node and never two objects for one "
+        "key is tested on near-miss requests (testing).",
+   design="5/C06", technique="Coq round-trip/injectivity proofs of the key encoding; encoder correspondence; near-miss request fuzzing",
+   note="Trusted: Coq kernel; Model/HashCons.v hand-written. Known finding: annotations enter the key only through their Python hash (T(-1)/T(-2) "
+        "conflated). One defect repaired (annotated BVV served from the constant cache).")
+
 REASONS = {}
 DEFAULT_REASON = "not claimed yet: its Coq model and correspondence harness are not built in this snapshot (see DESIGN.md section 10 for the order); no other technique is substituted"
 
